@@ -398,6 +398,10 @@ func C14sio(c *vh.Ctx) {
 		if capped {
 			c.NotExhaustive("order exploration capped at 5000 executions for one case")
 		}
+		if vexplore.Diverged != "" {
+			c.Count("order_replay_divergences", 1)
+			c.NotExhaustive("replaying a recorded prefix of map-iteration choices diverged (" + vexplore.Diverged + "): that case's orders are not fully explored")
+		}
 	}
 	if c.Replay != "" {
 		var cs c14Case
